@@ -335,6 +335,10 @@ func (st *stats) addFailure(idx int64, f failure, cases []runCase, refs *refTabl
 		original = &ReplayFile{Format: replayFormat, Property: "C18", Mode: "serial", Seed: *fSeed, RunIndex: idx, Inputs: inputs, Runs: runs,
 			Expect: f, Identity: identityOf(f)}
 	}
+	if len(st.Failures) >= 3 {
+		// enough minimised examples from this process: the rest is recorded as found
+		minimiseIt = false
+	}
 	if f.Oracle == "O6" {
 		// a deadlock leaves simulated locks held for ever: this process is poisoned; the
 		// recorded schedule is reported as it is and the worker stops
@@ -465,6 +469,9 @@ func (st *stats) account(plan *Plan, info *planInfo, res *runResult) {
 			if op.Twice {
 				st.FaultsCfg["repeat"]++
 			}
+			if op.Fresh {
+				st.Faults["fresh-copy-input"]++
+			}
 		}
 	}
 	for _, f := range res.Fails {
@@ -507,6 +514,103 @@ func samplePlan(plan *Plan, info *planInfo, res *runResult, idx int64) any {
 	return m
 }
 
+// workCfg describes the seeded runs of one serial worker process.
+type workCfg struct {
+	seed          uint64
+	first, stride int64
+	maxRuns       int64     // 0: no limit
+	deadline      time.Time // zero: none
+	last          int64     // >= 0: stop after this run index (prefix replay)
+	worker        int
+	verify        int
+	minimise      bool
+}
+
+const longSlots = 48
+
+// workLoop is the body of a serial worker: re-verify a slice of the reference table, execute
+// seeded runs, keep a few results alive across many runs and re-check them (O3 over long
+// histories), re-verify the slice in reverse order.
+func workLoop(st *stats, refs *refTable, c workCfg, side *sideWriter) {
+	prefix := func(last int64) *SeededPrefix {
+		return &SeededPrefix{Seed: c.seed, First: c.first, Stride: c.stride, Last: last, Corrupt: *fCorrupt, Churn: *fChurn, Large: *fLarge,
+			Worker: c.worker, Verify: c.verify}
+	}
+	if c.verify > 0 {
+		verifySlice(st, refs, c.worker%c.verify, c.verify, false, "at the start of a worker process")
+	}
+	long := make([]*retained, longSlots)
+	longIdx := make([]int64, longSlots)
+	checkLong := func(now int64) {
+		for i, r := range long {
+			if r == nil {
+				continue
+			}
+			if h := structHash(r.sub.val, r.sub.err); h != r.h0 {
+				f := failure{Oracle: "O3", Task: r.task, Op: r.op, Key: r.key.String(), Got: h, Want: r.h0,
+					Detail: fmt.Sprintf("a value returned in seeded run %d and only held since then had changed by the time run %d had finished", longIdx[i], now)}
+				st.FailuresTotal++
+				if len(st.Failures) < *fMaxFail {
+					st.Failures = append(st.Failures, foundFailure{RunIndex: now, Fail: f, Replay: &ReplayFile{Format: replayFormat, Property: "C18", Mode: "serial",
+						Seed: c.seed, RunIndex: now, Inputs: []string{}, Runs: []RFRun{}, Expect: f, Identity: identityOf(f), Prefix: prefix(now)}})
+				}
+				long[i] = nil
+			}
+		}
+	}
+	idx := c.first
+	st.FirstIdx = idx
+	for n := int64(0); ; n++ {
+		if c.maxRuns > 0 && n >= c.maxRuns {
+			break
+		}
+		if c.last >= 0 && idx > c.last {
+			break
+		}
+		if !c.deadline.IsZero() && (n&15) == 0 && time.Now().After(c.deadline) {
+			break
+		}
+		r := runSeed(c.seed, idx)
+		plan, info := genPlan(r, refs)
+		res := execRun(plan, execOpts{rng: r, cfg: info.Cfg, refs: refs})
+		st.account(plan, &info, res)
+		side.add(idx, res)
+		if len(st.Samples) < 3 && res.Overlapped && res.Switches >= 2 && res.Switches <= 12 {
+			st.Samples = append(st.Samples, samplePlan(plan, &info, res, idx))
+		}
+		for _, f := range res.Fails {
+			if f.Oracle == "HARNESS" {
+				continue
+			}
+			rec := res.Rec
+			st.addFailure(idx, f, []runCase{{plan: plan, sched: &rec}}, refs, c.minimise)
+			if k := len(st.Failures); k > 0 && st.Failures[k-1].RunIndex == idx {
+				st.Failures[k-1].Replay.Prefix = prefix(idx)
+			}
+			break
+		}
+		if n%3 == 0 && len(res.Retained) > 0 {
+			slot := int(n/3) % longSlots
+			long[slot], longIdx[slot] = res.Retained[int(n)%len(res.Retained)], idx
+			st.Faults["long-retained"]++
+		}
+		if n%128 == 127 {
+			checkLong(idx)
+		}
+		st.LastIdx = idx
+		idx += c.stride
+		if len(st.Failures) >= *fMaxFail || st.poisoned {
+			break
+		}
+	}
+	if len(st.Failures) < *fMaxFail && !st.poisoned {
+		checkLong(st.LastIdx)
+	}
+	if c.verify > 0 && len(st.Failures) < *fMaxFail && !st.poisoned {
+		verifySlice(st, refs, c.worker%c.verify, c.verify, true, "after the simulated runs of a worker process, in reverse order")
+	}
+}
+
 // modeWork: seeded serial runs.
 func modeWork() error {
 	start := time.Now()
@@ -523,47 +627,50 @@ func modeWork() error {
 	if err != nil {
 		return err
 	}
-	if *fVerify > 0 {
-		verifySlice(st, refs, *fW%*fVerify, *fVerify, false, "at the start of a worker process")
+	c := workCfg{seed: *fSeed, first: *fFrom + int64(*fW), stride: int64(*fOf), maxRuns: *fRuns, last: -1, worker: *fW, verify: *fVerify, minimise: true}
+	if *fRuns == 0 {
+		c.deadline = start.Add(time.Duration(*fSeconds * float64(time.Second)))
 	}
-	deadline := start.Add(time.Duration(*fSeconds * float64(time.Second)))
-	idx := *fFrom + int64(*fW)
-	st.FirstIdx = idx
-	for n := int64(0); ; n++ {
-		if *fRuns > 0 && n >= *fRuns {
-			break
-		}
-		if *fRuns == 0 && (n&15) == 0 && time.Now().After(deadline) {
-			break
-		}
-		r := runSeed(*fSeed, idx)
-		plan, info := genPlan(r, refs)
-		res := execRun(plan, execOpts{rng: r, cfg: info.Cfg, refs: refs})
-		st.account(plan, &info, res)
-		side.add(idx, res)
-		if len(st.Samples) < 3 && res.Overlapped && res.Switches >= 2 && res.Switches <= 12 {
-			st.Samples = append(st.Samples, samplePlan(plan, &info, res, idx))
-		}
-		for _, f := range res.Fails {
-			if f.Oracle == "HARNESS" {
-				continue
-			}
-			rec := res.Rec
-			st.addFailure(idx, f, []runCase{{plan: plan, sched: &rec}}, refs, true)
-			break
-		}
-		st.LastIdx = idx
-		idx += int64(*fOf)
-		if len(st.Failures) >= *fMaxFail || st.poisoned {
-			break
-		}
-	}
-	if *fVerify > 0 && len(st.Failures) < *fMaxFail && !st.poisoned {
-		verifySlice(st, refs, *fW%*fVerify, *fVerify, true, "after the simulated runs of a worker process, in reverse order")
-	}
+	workLoop(st, refs, c, side)
 	side.close()
 	st.finish(start)
 	return writeJSON(*fOut, st)
+}
+
+// replayPrefixSerial re-executes everything a serial worker did up to and including the
+// failing run (reference slice, seeded runs regenerated from the seed), in a fresh process,
+// against a reference table computed by fresh child processes.
+func replayPrefixSerial(rf *ReplayFile) error {
+	p := rf.Prefix
+	if *fRoot == "" {
+		return fmt.Errorf("a seeded-prefix replay needs -root")
+	}
+	*fCorrupt, *fChurn, *fLarge = p.Corrupt, p.Churn, p.Large
+	if err := buildPool(*fRoot, p.Seed, p.Corrupt, p.Churn, p.Large); err != nil {
+		return err
+	}
+	dir, err := os.MkdirTemp("", "prefix-")
+	if err != nil {
+		return err
+	}
+	defer os.RemoveAll(dir)
+	refs, err := refsViaChildren(dir, []string{"-root", *fRoot, "-seed", fmt.Sprint(p.Seed), "-corrupt", fmt.Sprint(p.Corrupt), "-churn", fmt.Sprint(p.Churn), "-large", fmt.Sprint(p.Large)})
+	if err != nil {
+		return err
+	}
+	st := newStats("serial-prefix", p.Worker)
+	*fMaxFail = 1
+	workLoop(st, refs, workCfg{seed: p.Seed, first: p.First, stride: p.Stride, last: p.Last, worker: p.Worker, verify: p.Verify}, &sideWriter{})
+	if len(st.Failures) > 0 {
+		f := st.Failures[0]
+		fmt.Printf("replayed %s (seeded prefix: runs %d, %d, ... %d of seed %d): oracle %s fails in run %d at task %d op %d: %s\n  %s\n",
+			*fFile, p.First, p.First+p.Stride, p.Last, p.Seed, f.Fail.Oracle, f.RunIndex, f.Fail.Task, f.Fail.Op, f.Fail.Key, f.Fail.Detail)
+		fmt.Printf("REPRODUCED oracle=%s same_class_as_recorded=%v (seeded prefix, %d runs)\n", f.Fail.Oracle, failClass(f.Fail.Oracle) == failClass(rf.Expect.Oracle), st.Runs)
+		fmt.Printf("VIOLATION property=C18 replay=%s\n", *fFile)
+		os.Exit(1)
+	}
+	fmt.Printf("NOT-REPRODUCED: seeded prefix of %d runs re-executed, every oracle held\n", st.Runs)
+	return nil
 }
 
 // modePairs: ordered-pair sweep.  For every a of the sample: one task executing
@@ -809,8 +916,8 @@ func modePreempt() error {
 					t0.Ops = append(t0.Ops, OpPlan{Key: *h, Shared: -1})
 					aOp = 1
 				}
-				t0.Ops = append(t0.Ops, OpPlan{Key: a, Shared: -1})
-				plan := &Plan{Tasks: []TaskPlan{t0, {Ops: []OpPlan{{Key: b, Shared: -1}}}}}
+				t0.Ops = append(t0.Ops, OpPlan{Key: a, Shared: -1, Fresh: job%3 == 0})
+				plan := &Plan{Tasks: []TaskPlan{t0, {Ops: []OpPlan{{Key: b, Shared: -1, Fresh: job%2 == 0}}}}}
 				sc := &Schedule{Segs: []Segment{{Task: 0, N: i, Op: aOp}, {Task: 1, N: 1 << 60, Op: -1}, {Task: 0, N: 1 << 60, Op: -1}}}
 				res := execRun(plan, execOpts{lit: sc, refs: refs})
 				st.account(plan, nil, res)
@@ -925,6 +1032,9 @@ func modeReplay() error {
 	if rf.Prefix != nil && rf.Mode == "burst" {
 		return replayPrefix(rf)
 	}
+	if rf.Prefix != nil && len(rf.Runs) == 0 {
+		return replayPrefixSerial(rf)
+	}
 	cases, err := installReplayPool(rf)
 	if err != nil {
 		return err
@@ -978,6 +1088,10 @@ func modeReplay() error {
 		fmt.Printf("REPRODUCED oracle=%s same_class_as_recorded=%v attempt=%d\n", f.Oracle, same, a+1)
 		fmt.Printf("VIOLATION property=C18 replay=%s\n", *fFile)
 		os.Exit(1)
+	}
+	if rf.Prefix != nil && rf.Mode == "serial" && *fRoot != "" {
+		fmt.Printf("the explicit run alone does not fail; re-executing the worker's history (seeded prefix)\n")
+		return replayPrefixSerial(rf)
 	}
 	fmt.Printf("NOT-REPRODUCED: every oracle held on the replayed execution (%d attempt(s))\n", attempts)
 	return nil
